@@ -4,6 +4,9 @@ EXTENDS CmdLine
 MCLevels == {Absent, -1, 0, 1, 2, 5, 10}
 MCModes  == {Absent, 0, 1, 4, 7, 8, 10, 11, 20, 21, 25}
 MCCounts == {Absent, -2, 0, 1, 3}
+\* thorough tier: every level index and every mode number around the valid ranges
+MCLevelsT == {Absent} \cup (-1..10)
+MCModesT  == {Absent} \cup (0..25)
 B(cat, nuc, level, mode, win) ==
   [cat |-> cat, nuc |-> nuc, level |-> level, mode |-> mode, win |-> win,
    seed |-> "none", count |-> Absent, act |-> "none", mdl |-> "none", fault |-> "none"]
